@@ -237,18 +237,49 @@ func runC01(p *core.Prog, r *core.Report) {
 		if !uses {
 			continue
 		}
-		cut := sx.Cut{Instrs: map[ssa.Instruction]bool{}}
-		for _, s := range sinks {
-			if s.Fn == fn {
-				cut.Instrs[s.In] = true
+		// "writes": an append to the line, or a call of an emitter (a function that receives the line buffer) which itself
+		// writes on every path
+		var alwaysWrites func(f *ssa.Function, depth int) (sx.Cut, bool)
+		alwaysWrites = func(f *ssa.Function, depth int) (sx.Cut, bool) {
+			c := sx.Cut{Instrs: map[ssa.Instruction]bool{}}
+			for _, s := range sinks {
+				if s.Fn == f {
+					c.Instrs[s.In] = true
+				}
 			}
-		}
-		ok := len(cut.Instrs) > 0
-		for _, ret := range sx.Returns(fn) {
-			if sx.ReachInstr(fn, nil, ret, cut) {
-				ok = false
+			if depth < 3 {
+				sx.Instrs(f, func(in ssa.Instruction) {
+					call, ok := in.(*ssa.Call)
+					if !ok {
+						return
+					}
+					callee := sx.StaticCallee(call)
+					if callee == nil || bufs[callee] == nil || callee == f {
+						return
+					}
+					passes := false
+					for _, a := range sx.Args(call) {
+						if bufs[f][a] || bufs[f][sx.Unspill(a)] {
+							passes = true
+						}
+					}
+					if !passes {
+						return
+					}
+					if _, all := alwaysWrites(callee, depth+1); all {
+						c.Instrs[in] = true
+					}
+				})
 			}
+			all := len(c.Instrs) > 0
+			for _, ret := range sx.Returns(f) {
+				if sx.ReachInstr(f, nil, ret, c) {
+					all = false
+				}
+			}
+			return c, all
 		}
+		_, ok := alwaysWrites(fn, 0)
 		r.Check(ok, "C01-R4", fnName(fn)+": every path writes a value", p.FuncPos(fn), "no return without an append (error → escaped string)", "a path of the marshal helper returns without appending anything: `\"key\":` would be followed by ',' or '}'")
 	}
 
